@@ -65,17 +65,33 @@ func c18(r *ev.Run) {
 	r.Rule("cursor codec: boundary and PRNG (node index, node cursor < 2^48) pairs; iteration: 1-12 seed nodes, PRNG key distributions (empty nodes, one huge node), per-node scripted cursor sequences of length 1-30 with arbitrary distinct values < 2^48 (incl. >= 2^47) ending in 0, COUNT / MATCH / TYPE arguments with arbitrary bytes; client-supplied cursors past the last node and malformed cursors; distinct = distinct (node count, script-length class, argument shape) tuples and cursor classes")
 	r.Assume("the proxy iterates its healthy seed-host list sorted by address (string order); node indices >= 32768 need 32768 seed hosts and are outside the workload")
 	runAPIPart(r, "cursor", false, nil, 5*time.Minute)
-	s, err := startSUT(r, false, 60000, 20)
+	iters := 120
+	if r.Tier == "thorough" {
+		iters = 2500
+	}
+	c18Iterations(r, false, iters, r.Seed+18)
+	// the same iterations on a race-instrumented proxy: the reply is handed to the session by one goroutine and its cursor is
+	// rewritten by another piece of code; only the race detector sees an overlap that lasts nanoseconds
+	c18Iterations(r, true, iters/6, r.Seed+1818)
+	r.Require("iterations_completed", int64(iters/2))
+}
+
+func c18Iterations(r *ev.Run, race bool, iters int, seed int64) {
+	s, err := startSUT(r, race, 60000, 20)
 	if err != nil {
 		r.Internal("start sut: %v", err)
 		return
 	}
 	defer s.Close()
-	rnd := rand.New(rand.NewSource(r.Seed + 18))
-	iters := 120
-	if r.Tier == "thorough" {
-		iters = 2500
+	if race {
+		defer func() {
+			for _, rr := range raceReports(s, []string{"proc/redis/request.go", "proc/redis/codec.go", "proc/redis/session.go", "proc/redis/handler.go", "proc/redis/resp.go"}) {
+				r.Violation("C18:race:"+rr.Key, "data race on a SCAN reply between the code that rewrites its cursor and the session that writes it to the client", map[string]interface{}{"report": rr.Text})
+			}
+			r.Count("race_iterations_completed", 1)
+		}()
 	}
+	rnd := rand.New(rand.NewSource(seed))
 	for it := 0; it < iters; it++ {
 		if sutDied(r, s, "between iterations") {
 			return
@@ -335,14 +351,13 @@ func c18(r *ev.Run) {
 			lc = "long"
 		}
 		r.Case(fmt.Sprintf("iter/n%d/%s/%s", nn, lc, shape))
-		if it == 0 {
+		if it == 0 && !race {
 			r.Sample(map[string]interface{}{"nodes": nn, "keys": len(allKeys), "scripts": scriptSummary(scripts), "extra_args": argStrings(extra), "calls": calls})
 		}
 		conn.Close()
 		s.StopProc(svc.Name, 20*time.Second)
 		cl.Close()
 	}
-	r.Require("iterations_completed", int64(iters/2))
 }
 
 func sameArgs(a, b [][]byte) bool {
